@@ -1,0 +1,24 @@
+#ifndef OSMIUM_UTIL_VERIF_HOOKS_HPP
+#define OSMIUM_UTIL_VERIF_HOOKS_HPP
+
+/*
+
+Hooks for external verification tooling. Without OSMIUM_VERIF_HOOKS defined
+everything in here expands to nothing.
+
+With OSMIUM_VERIF_HOOKS defined, OSMIUM_VERIF_SCHED_POINT(tag) calls the
+function osmium_verif_sched_point(tag), which must be supplied by the
+program. It marks accesses to atomic variables that are used for
+synchronisation between threads ("load:..." and "store:..." tags), so
+that a controlled scheduler can switch threads there.
+
+*/
+
+#ifdef OSMIUM_VERIF_HOOKS
+extern "C" void osmium_verif_sched_point(const char* tag);
+# define OSMIUM_VERIF_SCHED_POINT(tag) osmium_verif_sched_point(tag)
+#else
+# define OSMIUM_VERIF_SCHED_POINT(tag)
+#endif
+
+#endif // OSMIUM_UTIL_VERIF_HOOKS_HPP
